@@ -43,3 +43,64 @@ Theorem stft_fbf_eq_full :
   len stale = L c -> 0 < k -> snd (fbf c (init c stale) x k) = Some (full_frames c x).
 Proof. exact @fbf_eq_full_l. Qed.
 Print Assumptions stft_fbf_eq_full.
+
+(* ======================= short-integration computer ======================= *)
+(* model coq/C03/Model.v (statement-by-statement, incl. the overlap-save ring buffer);
+   proofs in coq/C03.  K is any number type with an associative + with unit. *)
+Require Verif.C03.Model Verif.C03.Props.
+Module SI := Verif.C03.Model.
+
+(* ANY non-empty list of chunks (empty and one-sample chunks included) then finalize
+   gives the documented matrix of the concatenated signal, from any idle state, for
+   every configuration satisfying the precondition [pre] (frame shift shorter than the
+   longest filter's one-sided support) and every floating dtype *)
+Theorem si_stream_eq_spec :
+  forall (K : Type) (kzero : K) (kadd kmul : K -> K -> K) (phi post : K -> K),
+  (forall a b c, kadd a (kadd b c) = kadd (kadd a b) c) ->
+  (forall a, kadd kzero a = a) -> (forall a, kadd a kzero = a) ->
+  forall (c : SI.cfg K) (st : SI.state K) (d : SI.dtype) (chunks : list (list K)),
+  SI.pre K c -> SI.started K st = false -> SI.is_floating d = true -> chunks <> [] ->
+  exists st', SI.si_stream K kzero kadd kmul phi post c st (map (fun ch => (d, ch)) chunks)
+              = SI.Ok (st', d, SI.si_spec K kzero kadd kmul phi post c (concat chunks))
+              /\ SI.started K st' = false.
+Proof. exact Verif.C03.Props.si_stream_eq_spec. Qed.
+Print Assumptions si_stream_eq_spec.
+
+(* which is what compute_full returns *)
+Theorem si_full_eq_spec :
+  forall (K : Type) (kzero : K) (kadd kmul : K -> K -> K) (phi post : K -> K),
+  (forall a b c, kadd a (kadd b c) = kadd (kadd a b) c) ->
+  (forall a, kadd kzero a = a) -> (forall a, kadd a kzero = a) ->
+  forall (c : SI.cfg K) (st : SI.state K) (d : SI.dtype) (xs : list K),
+  SI.pre K c -> SI.started K st = false -> SI.is_floating d = true ->
+  exists st', SI.compute_full K kzero kadd kmul phi post c st (d, xs)
+              = SI.Ok (st', d, SI.si_spec K kzero kadd kmul phi post c xs)
+              /\ SI.started K st' = false.
+Proof. exact Verif.C03.Props.si_full_eq_spec. Qed.
+Print Assumptions si_full_eq_spec.
+
+Theorem si_chunk_invariance :
+  forall (K : Type) (kzero : K) (kadd kmul : K -> K -> K) (phi post : K -> K),
+  (forall a b c, kadd a (kadd b c) = kadd (kadd a b) c) ->
+  (forall a, kadd kzero a = a) -> (forall a, kadd a kzero = a) ->
+  forall (c : SI.cfg K) (st : SI.state K) (d : SI.dtype) (c1 c2 : list (list K)),
+  SI.pre K c -> SI.started K st = false -> SI.is_floating d = true -> c1 <> [] -> c2 <> [] ->
+  concat c1 = concat c2 ->
+  exists st1 st2 rows,
+    SI.si_stream K kzero kadd kmul phi post c st (map (fun ch => (d, ch)) c1) = SI.Ok (st1, d, rows) /\
+    SI.si_stream K kzero kadd kmul phi post c st (map (fun ch => (d, ch)) c2) = SI.Ok (st2, d, rows).
+Proof. exact Verif.C03.Props.si_chunk_invariance. Qed.
+Print Assumptions si_chunk_invariance.
+
+Theorem si_fbf_eq_full :
+  forall (K : Type) (kzero : K) (kadd kmul : K -> K -> K) (phi post : K -> K),
+  (forall a b c, kadd a (kadd b c) = kadd (kadd a b) c) ->
+  (forall a, kadd kzero a = a) -> (forall a, kadd a kzero = a) ->
+  forall (c : SI.cfg K) (st : SI.state K) (d : SI.dtype) (xs : list K) (chunk_size : Z),
+  SI.pre K c -> SI.started K st = false -> SI.is_floating d = true -> 1 <= chunk_size -> xs <> [] ->
+  exists st1 st2 rows,
+    SI.fbf K kzero kadd kmul phi post c st (d, xs) chunk_size = SI.Ok (st1, d, rows) /\
+    SI.compute_full K kzero kadd kmul phi post c st (d, xs) = SI.Ok (st2, d, rows) /\
+    rows = SI.si_spec K kzero kadd kmul phi post c xs.
+Proof. exact Verif.C03.Props.si_fbf_eq_full. Qed.
+Print Assumptions si_fbf_eq_full.
